@@ -446,4 +446,6 @@ def check(prog: Program, rep):
     plumb.whole_flow_shortcuts_rule(prog, rep, "C10.R8")
     cap_premises(prog, rep, "C10.R8", "kFlowDecompCycles", which=("P1",))
     plumb.ignore_list_accumulates(prog, rep, "C10.R8")
+    plumb.node_expansion_length_rule(prog, rep, "C10.R8")
+    plumb.percentile_rules(prog, rep, "C10.R8")
 
